@@ -385,7 +385,7 @@ func hpairsBase() []hpair {
 				return "-"
 			},
 			func(w *hworld) string { return "later attempt: " + w.verify("10.0.0.32:50032", "hv-l2", hidL.ID, hidL) }},
-		{"a change is fanned out to five subscribed connections while one of them closes", "C10",
+		{"a change is fanned out to five subscribed connections while one of them closes", "C10 C13 C08",
 			func(w *hworld) {
 				for i := 0; i < 3; i++ {
 					w.acceptVerified(fmt.Sprintf("10.0.0.%d:5100%d", 40+i, i), byte(60+i))
